@@ -19,8 +19,10 @@
 (*    classified (Classify): an instant, a local time in a named zone (the *)
 (*    tz database is not specified: the UTC offset is taken from the       *)
 (*    observation), invalid (matches a pattern but denotes nothing: Feb    *)
-(*    30, offset of 24 h or more, wrong weekday), or silent (depends on    *)
-(*    the current time, or the documentation does not fix a meaning).      *)
+(*    30, offset of 24 h or more), or silent (depends on the current time, *)
+(*    or the documentation does not fix a meaning).  "soft" readings       *)
+(*    (minute 60, hour 24, a contradicting weekday, more than nine         *)
+(*    fractional digits) admit an error as well as the arithmetic reading. *)
 (*  * UTC offsets are valid iff |offset| < 24 h.                           *)
 (***************************************************************************)
 EXTENDS BigNum, Lexer, TzNames, DateWords, FiniteSets
@@ -193,8 +195,10 @@ Elem(w, toks, i, f) ==
     [] w = "ordinal" -> IF FixedNum(t, 3, 1, 366) THEN One(i + 1, [f EXCEPT !.ord = DVal(t.int)]) ELSE {}
     [] w = "isoweek" ->  \* a week, not an instant: the documentation does not say which instant
          IF FixedNum(t, 2, 1, 53) THEN One(i + 1, [f EXCEPT !.unspec = TRUE]) ELSE {}
-    [] w = "hour24" -> IF FixedNum(t, 2, 0, 23)
-                       THEN One(i + 1, [f EXCEPT !.h12 = DVal(t.int) % 12, !.pm = DVal(t.int) \div 12]) ELSE {}
+    [] w = "hour24" ->   \* hour 24 (ISO 8601:2004 allowed 24:00 for the end of a day): an error, or the arithmetic reading
+         IF FixedNum(t, 2, 0, 23) THEN One(i + 1, [f EXCEPT !.h12 = DVal(t.int) % 12, !.pm = DVal(t.int) \div 12])
+         ELSE IF FixedNum(t, 2, 24, 24) THEN One(i + 1, [f EXCEPT !.h12 = 0, !.pm = 2, !.soft = TRUE])
+         ELSE {}
     [] w = "hour12" -> IF FixedNum(t, 2, 1, 12) THEN One(i + 1, [f EXCEPT !.h12 = DVal(t.int) % 12]) ELSE {}
     [] w = "min" ->      \* minute 60 names no minute of the hour: an error, or the arithmetic reading
          IF FixedNum(t, 2, 0, 59) THEN One(i + 1, [f EXCEPT !.mi = DVal(t.int)])
@@ -262,10 +266,11 @@ Classify(f) ==
      ELSE IF (f.ord > 0 /\ f.ord > DaysInYear(f.y)) \/ (f.ord = 0 /\ ~ValidCivil(f.y, f.mo, f.dd)) THEN RInvalid
      ELSE LET days == IF f.ord > 0 THEN DaysFromOrdinal(f.y, f.ord) ELSE DaysFromCivil(f.y, f.mo, f.dd)
               secs == IF hastime THEN ((f.pm * 12 + f.h12) * 60 + f.mi) * 60 + (IF f.s < 0 THEN 0 ELSE f.s) ELSE 0
-          IN IF f.wd # 0 /\ WeekdayOf(days) # f.wd THEN RInvalid
-             ELSE IF f.ok = 1 /\ ~OffsetValid(f.off) THEN RInvalid
+              \* a weekday that contradicts the date: an error, or the date (a reader may ignore the weekday)
+              wdbad == f.wd # 0 /\ WeekdayOf(days) # f.wd
+          IN IF f.ok = 1 /\ ~OffsetValid(f.off) THEN RInvalid
              ELSE IF f.ok = 2 THEN RD("zoned", InstantOf(days, secs, f.ns), IF f.nsx THEN 1 ELSE 0, TRUE, f.tz)
-             ELSE RD("fixed", InstantOf(days, secs - f.off, f.ns), IF f.nsx THEN 1 ELSE 0, f.soft \/ f.nsx, <<>>)
+             ELSE RD("fixed", InstantOf(days, secs - f.off, f.ns), IF f.nsx THEN 1 ELSE 0, f.soft \/ f.nsx \/ wdbad, <<>>)
 
 \* all readings of a literal (its date tokens) by the documented patterns
 Readings(toks) == UNION {{Classify(f) : f \in FullMatches(Patterns[p], toks)} : p \in DOMAIN Patterns}
